@@ -279,39 +279,39 @@ class _FilePersistence(_ConcretePersistence):
         previous_run_id = None
         line_number = 0
         for line in data_file:
-            if line.startswith("#"):  # skip comments, and shebang lines, but read run_ids
-                line_number += 1
-                if filtered_data_file:
-                    filtered_data_file.write(line)
-
-                if line.startswith(_METADATA_BENCHMARK):
-                    rest_line = line[len(_METADATA_BENCHMARK):]
-                    bench_id, bench_json = rest_line.split("=", 1)
-                    bench_dict = json.loads(bench_json)
-                    benchmark = self._data_store.create_benchmark_from_dict(bench_dict)
-                    assert benchmark not in self._benchmarks_in_file
-                    self._benchmarks_in_file[benchmark] = int(bench_id)
-                    assert len(self._id_to_benchmark) == int(bench_id)
-                    self._id_to_benchmark.append(benchmark)
-
-                elif line.startswith(_METADATA_RUN_ID):
-                    rest_line = line[len(_METADATA_RUN_ID):]
-                    run_id_id, run_json = rest_line.split("=", 1)
-                    run_dict = json.loads(run_json)
-                    assert "benchmark_id" in run_dict
-                    benchmark_id = int(run_dict["benchmark_id"])
-                    benchmark = self._id_to_benchmark[benchmark_id]
-
-                    run_id = self._data_store.create_run_id_from_dict(run_dict, benchmark)
-                    self._run_ids_in_file[run_id] = int(run_id_id)
-                    assert len(self._id_to_run_id) == int(run_id_id)
-                    self._id_to_run_id.append(run_id)
-                continue
-
-            if line == csv_header:
-                continue
-
             try:
+                if line.startswith("#"):  # skip comments, and shebang lines, but read run_ids
+                    line_number += 1
+                    if filtered_data_file:
+                        filtered_data_file.write(line)
+
+                    if line.startswith(_METADATA_BENCHMARK):
+                        rest_line = line[len(_METADATA_BENCHMARK):]
+                        bench_id, bench_json = rest_line.split("=", 1)
+                        bench_dict = json.loads(bench_json)
+                        benchmark = self._data_store.create_benchmark_from_dict(bench_dict)
+                        assert benchmark not in self._benchmarks_in_file
+                        self._benchmarks_in_file[benchmark] = int(bench_id)
+                        assert len(self._id_to_benchmark) == int(bench_id)
+                        self._id_to_benchmark.append(benchmark)
+
+                    elif line.startswith(_METADATA_RUN_ID):
+                        rest_line = line[len(_METADATA_RUN_ID):]
+                        run_id_id, run_json = rest_line.split("=", 1)
+                        run_dict = json.loads(run_json)
+                        assert "benchmark_id" in run_dict
+                        benchmark_id = int(run_dict["benchmark_id"])
+                        benchmark = self._id_to_benchmark[benchmark_id]
+
+                        run_id = self._data_store.create_run_id_from_dict(run_dict, benchmark)
+                        self._run_ids_in_file[run_id] = int(run_id_id)
+                        assert len(self._id_to_run_id) == int(run_id_id)
+                        self._id_to_run_id.append(run_id)
+                    continue
+
+                if line == csv_header:
+                    continue
+
                 data_point, previous_run_id = self._parse_data_line(
                     data_point, line, line_number, runs, filtered_data_file, previous_run_id)
             except (ValueError, IndexError) as err:
